@@ -1488,9 +1488,12 @@ def kwdefaults(fn):
 
 
 def sec_misc_print(m):
-    """Tree.print (part PRINT, host C16): the keyword pass-through to format() and the defaults"""
+    """Tree.print (part PRINT, host C16): the keyword pass-through to format() and the defaults; the two default
+    rendering templates"""
     lines = []
     tcls = class_def(m["tree"], "Tree")
+    lines.append(f"Definition NODE_DEFAULT_RENDER_REPR : list Z := {text(const_str(class_assign(class_def(m['node'], 'Node'), 'DEFAULT_RENDER_REPR')))}.")
+    lines.append(f"Definition TYPED_DEFAULT_RENDER_REPR : list Z := {text(const_str(class_assign(class_def(m['typed'], 'TypedNode'), 'DEFAULT_RENDER_REPR')))}.")
 
     def pairs(ps):
         return "[" + "; ".join(f"({text(a)}, {text(b)})" for a, b in ps) + "]"
@@ -1551,6 +1554,56 @@ def sec_misc_mermaid(m):
     return lines
 
 
+def sec_misc_common(m):
+    """common.py / tree.py odds and ends (part COMMONMISC, host C14): the exception hierarchy, MIN_PYTHON_VERSION_INFO,
+    the comparison and the slice of check_python_version"""
+    lines = []
+    common, tree = m["common"], m["tree"]
+    bases = []
+    for node in common.body:
+        if isinstance(node, ast.ClassDef) and node.name.endswith("Error"):
+            if len(node.bases) != 1 or not isinstance(node.bases[0], ast.Name):
+                raise Unsupported(f"class {node.name}: expected exactly one named base class")
+            bases.append((node.name, node.bases[0].id))
+    lines.append("Definition ERROR_BASES : list (list Z * list Z) := [" + "; ".join(f"({text(a)}, {text(b)})" for a, b in bases) + "].")
+    mv = module_assign(tree, "MIN_PYTHON_VERSION_INFO")
+    if not (isinstance(mv, ast.Tuple) and all(isinstance(e, ast.Constant) and isinstance(e.value, int) for e in mv.elts)):
+        raise Unsupported("MIN_PYTHON_VERSION_INFO is not a tuple of int literals")
+    lines.append("Definition MIN_PYTHON_VERSION_INFO : list Z := [" + "; ".join(f"{e.value}%Z" for e in mv.elts) + "].")
+    # check_python_version: `if sys.version_info < min_version:` ... `min_version[:3]` ... return False / return True
+    fn = func_def(common, "check_python_version")
+    ifs = [st for st in fn.body if isinstance(st, ast.If)]
+    if len(ifs) != 1 or ifs[0].orelse:
+        raise Unsupported("check_python_version: expected one `if` without else")
+    t = ifs[0].test
+    ok = (isinstance(t, ast.Compare) and len(t.ops) == 1 and isinstance(t.left, ast.Attribute) and t.left.attr == "version_info"
+          and isinstance(t.comparators[0], ast.Name) and t.comparators[0].id == fn.args.args[0].arg)
+    if not ok:
+        raise Unsupported("check_python_version: expected `sys.version_info <op> min_version`")
+    op = {ast.Lt: "<", ast.LtE: "<=", ast.Gt: ">", ast.GtE: ">="}.get(type(t.ops[0]))
+    if op is None:
+        raise Unsupported("check_python_version: unsupported comparison")
+    lines.append(f"Definition VERSION_CHECK_OP : list Z := {text(op)}.")
+
+    def ret_const(stmts):
+        r = [st for st in stmts if isinstance(st, ast.Return)]
+        if len(r) != 1 or not (isinstance(r[0].value, ast.Constant) and isinstance(r[0].value.value, bool)):
+            raise Unsupported("check_python_version: expected `return <bool literal>`")
+        return r[0].value.value
+    lines.append(f"Definition VERSION_CHECK_RETURNS : list bool := [{'true' if ret_const(ifs[0].body) else 'false'}; {'true' if ret_const(fn.body) else 'false'}].")
+    sl = [n for n in ast.walk(ifs[0]) if isinstance(n, ast.Subscript) and isinstance(n.slice, ast.Slice)]
+    if len(sl) != 1 or sl[0].slice.lower is not None or not (isinstance(sl[0].slice.upper, ast.Constant) and isinstance(sl[0].slice.upper.value, int)):
+        raise Unsupported("check_python_version: expected one slice [:k]")
+    lines.append(f"Definition VERSION_CHECK_SLICE : Z := {sl[0].slice.upper.value}%Z.")
+    # check_python_version(MIN_PYTHON_VERSION_INFO) is called at import of tree.py
+    calls = [n for n in tree.body if isinstance(n, ast.Expr) and isinstance(n.value, ast.Call) and isinstance(n.value.func, ast.Name)
+             and n.value.func.id == "check_python_version"]
+    arg_ok = len(calls) == 1 and len(calls[0].value.args) == 1 and isinstance(calls[0].value.args[0], ast.Name) \
+        and calls[0].value.args[0].id == "MIN_PYTHON_VERSION_INFO"
+    lines.append(f"Definition VERSION_CHECKED_AT_IMPORT : bool := {'true' if arg_ok else 'false'}.")
+    return lines
+
+
 # section name -> (function, source files it reads, properties whose obligations use it)
 SECTIONS = [
     ("CONNECTORS", sec_connectors, ["common", "tree"]),
@@ -1568,8 +1621,9 @@ SECTIONS = [
     ("NAV", sec_nav, ["node"]),
     ("NAVT", sec_navt, ["typed"]),
     ("MISC", sec_misc, ["tree", "node", "typed"]),
-    ("MISCPRINT", sec_misc_print, ["tree"]),
+    ("MISCPRINT", sec_misc_print, ["tree", "node", "typed"]),
     ("MISCMERMAID", sec_misc_mermaid, ["tree", "node", "mermaid"]),
+    ("MISCCOMMON", sec_misc_common, ["common", "tree"]),
 ]
 FILES = dict(common="common.py", tree="tree.py", typed="typed_tree.py", fs="fs.py", diff="diff.py", mermaid="mermaid.py",
              dot="dot.py", init="__init__.py", node="node.py")
